@@ -1,6 +1,7 @@
 import VoluteModel.Lemmas.CanonMain
 import VoluteModel.Lemmas.SeqCore
 import VoluteModel.Lemmas.SeqGen8
+import VoluteModel.Lemmas.Gray
 
 /-!
 # Facts about the swap / flip sequences in use
@@ -65,7 +66,7 @@ structure SwapCover (n len : Nat) (swaps : List Nat) : Prop where
 
 /-- the Gray walk visits pairwise distinct masks and has 2^n steps -/
 structure FlipCover (n : Nat) (flips : List Nat) : Prop where
-  distinct : distinctMasksB flips = true
+  nodup : (prefixXors 0 flips).Nodup
   length : flips.length = 2 ^ n
 
 theorem swapAll_of (n len : Nat) (swaps : List Nat) (h : swapAllB n len swaps = true) :
@@ -77,7 +78,7 @@ theorem flipAll_of (n : Nat) (flips : List Nat) (h : flipAllB n flips = true) :
     FlipFacts n flips ∧ FlipCover n flips := by
   unfold flipAllB at h
   simp only [Bool.and_eq_true, beq_iff_eq] at h
-  exact ⟨flipFacts_of n flips h.1.1, ⟨h.1.2, h.2⟩⟩
+  exact ⟨flipFacts_of n flips h.1.1, ⟨prefixXors_nodup flips h.1.2, h.2⟩⟩
 
 /-- n! for n <= 8 -/
 def factTable : List Nat := [1, 1, 2, 6, 24, 120, 720, 5040, 40320]
@@ -91,8 +92,10 @@ theorem swaps_table : ∀ n : Fin 7, 2 ≤ n.val →
     swapAllB n.val (factTable[n.val]?.getD 0) ((SWAPS[n.val]?).getD []) = true := by
   decide +kernel
 
-/-- the sequences used for `n` variables satisfy the facts, n = 1..8 (flips) / 2..8 (swaps) -/
-theorem flipsFor_facts (n : Nat) (h1 : 1 ≤ n) (h8 : n ≤ 8) :
+/-- the flip sequence used for `n` variables is a closed Hamiltonian walk of the n-cube: the tables
+    of the source for n <= 6 (kernel evaluation), the run-time generator for every n in 7..64
+    (`Lemmas/Gray.lean`) -/
+theorem flipsFor_facts (n : Nat) (h1 : 1 ≤ n) (h64 : n ≤ 64) :
     ∃ fl, flipsFor n = some fl ∧ FlipFacts n fl ∧ FlipCover n fl := by
   by_cases h6 : n ≤ 6
   · have hlt : n < FLIPS.size := by
@@ -102,12 +105,8 @@ theorem flipsFor_facts (n : Nat) (h1 : 1 ≤ n) (h8 : n ≤ 8) :
     have := flips_table ⟨n, by omega⟩ h1
     simp only [Array.getElem?_eq_getElem hlt, Option.getD_some] at this
     exact flipAll_of n _ this
-  · by_cases h7 : n = 7
-    · subst h7
-      exact ⟨generateGrayFlips 7 true, by simp [flipsFor], flipAll_of 7 _ flips_gen7⟩
-    · have : n = 8 := by omega
-      subst this
-      exact ⟨generateGrayFlips 8 true, by simp [flipsFor], flipAll_of 8 _ flips_gen8⟩
+  · obtain ⟨⟨v, c, ne⟩, nd, len⟩ := gray_flips_facts n h1 h64
+    exact ⟨generateGrayFlips n true, by simp [flipsFor, h6], ⟨v, c, ne⟩, ⟨nd, len⟩⟩
 
 theorem swapsFor_facts (n : Nat) (h2 : 2 ≤ n) (h8 : n ≤ 8) :
     ∃ sw, swapsFor n = some sw ∧ SwapFacts n sw ∧ SwapCover n (factTable[n]?.getD 0) sw := by
